@@ -492,3 +492,27 @@ _add(Prop(
           "is silent after reset, reproduces the frame at idx to 1e-12 on the sample grid with libm's tabulated values, and "
           "through the converter at ratio 1 delivers source frame k-depth at output k.",
 ))
+
+
+_add(Prop(
+    "C16", "c16_nodes", "c16",
+    functions=["dasp_graph::node::{Sum, SumBuffers, Pass, Delay}::process", "impl Node for dyn Signal<Frame = F>",
+               "forwarding impls of Node for &mut T, Box<T>, BoxedNode, BoxedNodeSend, dyn Fn, dyn FnMut, fn",
+               "dasp_graph::Buffer::{from, silence, deref, deref_mut, clone, SILENT}", "Input::{verif_new (hook), buffers}",
+               "crates.io dasp_slice 0.11.0 add_in_place and dasp_ring_buffer 0.11.0 Fixed::push as linked by dasp_graph"],
+    bounds="buffer counts concrete per harness: Sum with (inputs x buffers -> outputs) in {(0 -> 1), (1x2 -> 1), (1x1 -> 2), "
+           "((2,1) -> 2)}, SumBuffers (2,1) -> 2, Pass 2 inputs (2,3 buffers) -> 3 outputs, Delay D in {1,2,3} over two "
+           "consecutive calls and per-channel lengths (1,2) with 3 channels offered; all 64 samples of every buffer symbolic "
+           "finite f32 with |v| <= 2^20; assertion at a symbolic sample index (two-input Sum / SumBuffers: at sample indices 0, 17, 63); signal node: two calls, symbolic start frame",
+    outside="GraphNode (needs dasp_graph::process: C09, not reachable); symbolic input/buffer counts (measured > 500 s); more "
+            "than 2 inputs; NaN / infinite samples",
+    assumptions=["buffer samples are arbitrary finite f32 with |v| <= 2^20 (no NaN / infinity)"],
+    rules=[{"match": r"sum::(two_inputs_mismatched_channels|sum_buffers)$", "tier": "thorough", "timeout": 3000}],
+    design_ref="DESIGN.md §4 C16",
+    claim="For the tabulated input/buffer shapes and arbitrary buffer contents the solver shows at an arbitrary sample index "
+          "that Sum writes per output channel the sum over the inputs that have that channel (silence where none has), "
+          "SumBuffers writes the sum of all buffers of all inputs to every output, Pass copies the first input and leaves "
+          "surplus outputs untouched, Delay delays each channel by its ring buffer's length continuously across calls, the "
+          "signal node de-interleaves successive frames one buffer length per call, and every wrapper forwards the very "
+          "same arguments exactly once.",
+))
